@@ -23,12 +23,12 @@ var r *mon.Run
 
 // refHeader is the independent MS-CIFS 2.2.3.1 layout.
 type refHeader struct {
-	Command                                      uint8
-	Status                                       uint32
-	Flags                                        uint8
-	Flags2, PIDHigh                              uint16
-	Sec                                          [8]byte
-	Reserved, TID, PIDLow, UID, MID              uint16
+	Command                         uint8
+	Status                          uint32
+	Flags                           uint8
+	Flags2, PIDHigh                 uint16
+	Sec                             [8]byte
+	Reserved, TID, PIDLow, UID, MID uint16
 }
 
 func (h refHeader) encode() []byte {
@@ -87,10 +87,54 @@ func headerFields(lh *header.Header) (refHeader, error) {
 	return h, nil
 }
 
+// long-lived header objects, one per SecurityFeatures variant, re-assigned in place between
+// Marshal calls (the sign-then-send flow): a stale cached encoding shows up here
+var liveHeaders [3]*header.Header
+
+func setInPlace(lh *header.Header, h refHeader, variant int) {
+	switch variant {
+	case 0:
+		copy(lh.SecurityFeatures.(*securityfeatures.SecurityFeaturesReserved).Reserved[:], h.Sec[:])
+	case 1:
+		lh.SecurityFeatures.(*securityfeatures.SecurityFeaturesSecuritySignature).SetSecuritySignature(h.Sec)
+	default:
+		cl := lh.SecurityFeatures.(*securityfeatures.SecurityFeaturesConnectionlessTransport)
+		cl.Key = binary.LittleEndian.Uint32(h.Sec[0:4])
+		cl.CID = binary.LittleEndian.Uint16(h.Sec[4:6])
+		cl.SequenceNumber = binary.LittleEndian.Uint16(h.Sec[6:8])
+	}
+	lh.Command = codes.CommandCode(h.Command)
+	lh.Status = h.Status
+	lh.Flags = flags.Flags(h.Flags)
+	lh.Flags2 = flags2.Flags2(h.Flags2)
+	lh.PIDHigh, lh.Reserved, lh.TID, lh.PIDLow, lh.UID, lh.MID = h.PIDHigh, h.Reserved, h.TID, h.PIDLow, h.UID, h.MID
+}
+
 func checkHeader(h refHeader, variant int, tag string) {
 	want := h.encode()
 	cs := map[string]any{"fields": fmt.Sprintf("%+v", h), "variant": variant, "ref_wire": mon.FullHex(want)}
 	p, pv, st := mon.Guard(func() {
+		if liveHeaders[variant] == nil {
+			liveHeaders[variant] = libHeader(refHeader{}, variant)
+			liveHeaders[variant].Marshal()
+		}
+		live := liveHeaders[variant]
+		// first only the security features change (in place, behind the interface), then the rest
+		prev, _ := live.Marshal()
+		hs, _ := headerFields(live)
+		hs.Sec = h.Sec
+		setInPlace(live, hs, variant)
+		g1, err1 := live.Marshal()
+		r.Eval(1)
+		if err1 != nil || !bytes.Equal(g1, hs.encode()) {
+			r.Violation("header.Marshal:stale-after-in-place-change", fmt.Sprintf("after changing only the security features in place Marshal gives %x, want %x (previous call gave %x)", g1, hs.encode(), prev), cs)
+		}
+		setInPlace(live, h, variant)
+		g2, err2 := live.Marshal()
+		r.Eval(1)
+		if err2 != nil || !bytes.Equal(g2, want) {
+			r.Violation("header.Marshal:stale-after-in-place-change", fmt.Sprintf("re-assigned long-lived header encodes as %x, want %x", g2, want), cs)
+		}
 		lh := libHeader(h, variant)
 		got, err := lh.Marshal()
 		r.Eval(1)
@@ -353,6 +397,17 @@ func framing(structs []smbgen.Struct) {
 			} else {
 				if got := reflect.TypeOf(m2.Command).Elem().Name(); got != s.Name && !(strings.HasPrefix(s.Name, "WriteRaw") && strings.HasPrefix(got, "WriteRaw")) {
 					r.Violation(s.Name+":decode:wrong-type", "decoded as "+got, cs)
+				}
+				// the decoded parameter and data blocks are the blocks that were on the wire
+				if pb := m2.Command.GetParameters(); pb != nil {
+					if got := pb.GetBytes(); !bytes.Equal(got, wire[33:33+2*wc]) || int(pb.WordCount) != wc {
+						r.Violation(s.Name+":decode:parameter-block", fmt.Sprintf("decoded parameter block (%d words) differs from the %d words on the wire", len(got)/2, wc), cs)
+					}
+				}
+				if db := m2.Command.GetData(); db != nil {
+					if got := db.GetBytes(); !bytes.Equal(got, wire[35+2*wc:]) || int(db.ByteCount) != bc {
+						r.Violation(s.Name+":decode:data-block", fmt.Sprintf("decoded data block (%d bytes) differs from the %d bytes on the wire", len(got), bc), cs)
+					}
 				}
 				h1, _ := headerFields(m.Header)
 				h2, _ := headerFields(m2.Header)
